@@ -151,16 +151,20 @@ def rematStr (exec : State) (k : Nat) (v : Bytes) (expiry : Option Nat) : State 
   | some ms => (execStep exec (setPxCmd k v ms)).1
   | none => (execStep exec (setCmd k v)).1
 
+/-- the non-hash branches: live string → SET [PX]; tombstone → DEL; anything else (other CRDT
+    kinds — for which `get()` is `None` and `is_tombstone()` is `false` — or an empty register)
+    → nothing -/
+def rematLww (exec : State) (k : Nat) (m : RV) : State :=
+  match m.get with
+  | some v => rematStr exec k v m.expiry
+  | none => if m.isTombstone then (execStep exec (.del [k])).1 else exec
+
 /-- re-materialisation of the MERGED value into the executor (`apply_remote_delta_impl`):
-    hash → HSET live fields + HDEL tombstoned fields; live string → SET [PX]; tombstone → DEL;
-    anything else (other CRDT kinds, an empty register) → nothing -/
+    hash → HSET live fields + HDEL tombstoned fields; otherwise `rematLww` -/
 def rematerialise (exec : State) (k : Nat) (m : RV) : State :=
   match m.crdt with
   | .hash h => rematHash exec k h
-  | _ =>
-    match m.get with
-    | some v => rematStr exec k v m.expiry
-    | none => if m.isTombstone then (execStep exec (.del [k])).1 else exec
+  | _ => rematLww exec k m
 
 namespace Node
 
@@ -236,7 +240,7 @@ inductive Reason where
   | setExpiryNotRecorded  -- SET … EXAT/PXAT, or KEEPTTL on a key that has a TTL
   | modifyKeepsTtl        -- INCR/DECR/INCRBY/DECRBY/APPEND on a key that has a TTL
   | hashOverNonHash       -- remote hash wins while the executor holds another type
-  | badDelta              -- merged value not canonical / an empty register / another CRDT kind
+  | badDelta              -- delta not canonical; merged value an empty register / another CRDT kind
   | expiryRange           -- merged expiry_ms is 0 or beyond i64 (SET … PX rejects it)
   | multiKeyDel           -- (cluster level) DEL k₁ … kₙ: only the last key's delta is handed back
   deriving DecidableEq, Repr
@@ -263,11 +267,11 @@ def unsupported (n : Node) : NEv → Option Reason
       if Redis.view (execStep n.exec c).1 0 = Redis.view n.exec 0 then none
       else some .nonReplicatedWriter
   | .deliver k d =>
-    match NMap.get (n.rs.applyRemote k d).keys k with
-    | none => none
-    | some m =>
-      if ¬ m.WF then some .badDelta
-      else
+    if ¬ d.WF then some .badDelta
+    else
+      match NMap.get (n.rs.applyRemote k d).keys k with
+      | none => none
+      | some m =>
         match m.crdt with
         | .hash h =>
           if ¬ h.all (fun p => Lww.proper p.2) then some .badDelta
